@@ -834,6 +834,51 @@ def r03_3c(prog, rep):
                              "the rule streams behind it never enter the merge and one stream is merged twice" % (ia, ib))
 
 
+def r03_7(prog, rep, rid="R03.7"):
+    """A sorted array stays sorted until it is handed on: behind a call of echs_instant_sort(A, n) / echs_event_sort(A, n) no element
+    of A is stored to on any path to the function's exit (another sort of A starts the question anew).  The date lists of RDATE/EXDATE
+    get DTSTART's time of day pasted in and are converted to UTC element by element — both can change the order — and the merge
+    relies on every constituent being sorted."""
+    n = 0
+    for f in prog.all_fns():
+        if not f.cfg or f.file.endswith(("instant.c", "event.c", "wikisort.c")):
+            continue
+        cfg = f.cfg
+        for b, i, c, line in f.all_calls():
+            if c.get("fn") not in ("echs_instant_sort", "echs_event_sort") or not c.get("a"):
+                continue
+            arr = lv(strip_casts(cfg.resolve(c["a"][0])))
+            n += 1
+            key = "%s/%s(%s)" % (f.name, c["fn"], arr)
+            late = []
+
+            def visit(bb, ii, x, _arr=arr, _late=late, _c=c):
+                if not isinstance(x, dict):
+                    return None
+                for cc in calls(x):
+                    if cc is not _c and cc.get("fn") == _c["fn"] and cc.get("a") and lv(strip_casts(cfg.resolve(cc["a"][0]))) == _arr:
+                        return "stop"
+                for l, kind, nn in writes(x):
+                    tl = strip_casts(l)
+                    while tl.get("k") == "mem":     # a member of an element is the element
+                        tl = strip_casts(tl["b"])
+                    if tl.get("k") == "idx" and lv(strip_casts(tl["b"])) == _arr:
+                        _late.append(nn.get("line", tl.get("line")))
+                        return "hit"
+                    if tl.get("k") == "un" and tl.get("op") == "*" and root_var(tl) == _arr.split("->")[0].split("[")[0] and "->" not in _arr:
+                        _late.append(nn.get("line", tl.get("line")))
+                        return "hit"
+                return None
+            forward_scan(cfg, (b, i), visit)
+            if late:
+                rep.fail(rid, key, f.loc(late[0]), "an element of %s is stored to behind the sort of line %s: the array leaves %s in an order the sort has not seen "
+                         "(the merged stream is chronological only if every constituent is)" % (arr, line, f.name), {"stores": late})
+            else:
+                rep.ok(rid, key, f.loc(line), "no element of %s is stored to between the sort and the function's exit" % arr)
+    if n < 2:
+        rep.broken_("rule=%s expected >=2 sort calls outside the sort units, found %d" % (rid, n))
+
+
 def run(prog, rep, tier, snap):
     rep.rule("R03.1", "peek purity of every stream class in scope", 5)
     rep.call(r03_1, prog, rep)
@@ -849,4 +894,6 @@ def run(prog, rep, tier, snap):
     rep.call(r03_5, prog, rep)
     rep.rule("R03.6", "instants are ordered only through the comparators of instant.h", 1)
     rep.call(r03_6, prog, rep)
+    rep.rule("R03.7", "a sorted array is not stored to between its sort and the function's exit", 2)
+    rep.call(r03_7, prog, rep)
 READY = True
